@@ -42,7 +42,7 @@ CONFORMABLE = {"tvd1", "Mdiff", "Mconv", "Mup", "Mupalt", "ghost", "Mbc", "Rbc",
 
 
 SOLVE_CLAUSES = {"C04_Solves", "C04_SameObject", "C04_SameAsMatrixPDE", "C04_ExternalSolver", "C04_Variants",
-                 "C04_Linear", "C04_Assembly", "C12_Residual", "C12_History", "C12_FixedPoint", "C12_ExplicitStep",
+                 "C04_Linear", "C04_Assembly", "C12_Residual", "C12_History", "C12_Limits", "C12_FixedPoint", "C12_ExplicitStep",
                  "C12_ExplicitBCs", "C12_InputUntouched", "C12_ExplicitUsable", "C03_SolvedRobin"}
 for _c in SOLVE_CLAUSES:
     NEEDS[_c] = []
